@@ -145,3 +145,11 @@ func SameSlice(a, b []byte) bool {
 	}
 	return len(a) == 0 || &a[0] == &b[0]
 }
+
+// NativeUnsupportedError is raised by harnesses that cannot run natively.
+type NativeUnsupportedError string
+
+// NativeUnsupported marks a harness whose environment stubs replace functions of the repository or of
+// a dependency (verifStub_* functions, injected by the engine only). A counterexample of such a harness
+// is confirmed by re-execution inside the engine instead of natively.
+func NativeUnsupported(reason string) { panic(NativeUnsupportedError(reason)) }
